@@ -131,7 +131,8 @@ def child_detect_faults(job):
 
 # ---------------------------------------------------------------------- benign sets
 BENIGN_WORDS = ("alpha beta gamma delta lorem ipsum dolor sit amet hello world caption line two "
-                "quick brown fox over under yes no ok then again music wait what now").split()
+                "quick brown fox over under yes no ok then again music wait what now "
+                "42 3rd 1 it's (laughs) MAN: rock&roll a<b x>y café ♪ naïve 100% [door] ... -- ¿qué?").split()
 
 
 def benign_text(rng):
@@ -145,7 +146,7 @@ def benign_recipe(rng):
     layouts = [docs.gen_layout(rng, abs_units=False) for _ in range(rng.randint(0, 2))]
     langs = []
     for lang in rng.sample(docs.LANGS, nl):
-        t = 5000 + rng.choice([0, 1000, 60000])
+        t = rng.choice([0, 0, 40, 1000, 5000, 6000, 65000, 3600000])
         caps = []
         for _ in range(rng.randint(1, 4)):
             dur = rng.choice([1000, 1500, 2500, 4000])
@@ -316,7 +317,7 @@ def _run(seed, tier, a, t0, evidence_path):
     ZP = zp
     workers = a.workers
     C = corpus()
-    n_pipe = a.histories or (240 if quick else 4000)
+    n_pipe = a.histories or (1600 if quick else 16000)
     budget = a.budget or (60 if quick else 900)
     # ---- stage 1: fault-free pipelines (also the source of stored writer outputs)
     pipelines = []
@@ -367,10 +368,10 @@ def _run(seed, tier, a, t0, evidence_path):
             # every format and every writer represented
             pick_c = []
             for fmt in ("dfxp", "sami", "srt", "webvtt", "microdvd", "scc"):
-                pick_c += [n for n in names_c if n.startswith("corpus/" + fmt + "/")][:3]
+                pick_c += [n for n in names_c if n.startswith("corpus/" + fmt + "/")][:10]
             pick_o = []
             for w in writers:
-                pick_o += [n for n in names_o if n.startswith("out/" + w + "/")][:3]
+                pick_o += [n for n in names_o if n.startswith("out/" + w + "/")][:8]
         else:
             pick_c, pick_o = names_c, names_o[:600]
         allnames = pick_c + pick_o
@@ -386,7 +387,7 @@ def _run(seed, tier, a, t0, evidence_path):
         # (b) seeded: stale tail / misdirected write over ordered pairs, corruption from the marker alphabet
         pairs = []
         pool_names = allnames
-        n_pairs = 400 if quick else 20000
+        n_pairs = 5000 if quick else 40000
         for _ in range(n_pairs):
             x, y = rng.choice(pool_names), rng.choice(pool_names)
             pairs.append((x, y))
@@ -403,7 +404,7 @@ def _run(seed, tier, a, t0, evidence_path):
                 fs.append(["misdirected_concat", x, y, rng.choice(["", "\n", "\n\n"])])
                 fs.append(["lost_write", x, y])
             jobs.append({"docs": d, "faults": fs})
-        n_corrupt = 30000 if quick else 1500000
+        n_corrupt = 800000 if quick else 6000000
         per = 2000
         for k in range(0, n_corrupt, per):
             d = {}
